@@ -5,11 +5,14 @@ CONSTANTS
   Paths <- NoShapes
   Muts <- NoShapes
   PreKinds <- NoShapes
+  DuringKinds <- NoShapes
+  Points <- NoShapes
   W <- TW
   S <- TS
   BitsOf <- TBits
   BodyChecked = FALSE
   AllowRestart = TRUE
+  AllowSync = TRUE
   FreshInits <- TFresh
 INVARIANTS Coherent NoMiss IndexAgrees CacheComplete
 PROPERTIES RejectedUnchanged PreExecUnchanged
